@@ -69,6 +69,19 @@ func Revoke() {
 		s2.Close()
 		f2.Close()
 	}
+	// optionally another partition of the SAME factory is used first after the revocation (it shares the system-key
+	// cache: its rotation moves the factory's "latest system key" while the revoked one is still cached unflagged)
+	if vx.Param("otherpart") == 1 && vx.Choice("other_partition_first", 2) == 1 {
+		so, _ := f.GetSession("p1")
+		vx.ClockFreeze(false)
+		vx.ClockMin(rs + k*I + 1)
+		vx.Now()
+		vx.ClockFreeze(freeze)
+		_, err := so.Encrypt(env.Ctx, []byte{5})
+		vx.Assert("C05.other_partition_ok", err == nil)
+		so.Close()
+		vx.Reach("C05.other_partition_first")
+	}
 	N := vx.Param("N")
 	// faults=F: up to F metastore/KMS calls made by the post-revocation encrypts fail (any call, any position).
 	// A faulted encrypt may return an error; one that returns a record is held to the same deadline.
